@@ -909,6 +909,10 @@ pub const SHARED_FNS: &[(&str, &[&str])] = &[
 // workload swarm
 
 pub const SHARED_PROGS: &[&str] = &[
+    // cells created inside loop bodies (every iteration and every run gets its own)
+    "s := mut 0; for e in [1, 2, 3]~ { t := mut e; t += 1; s += *t }; *s",
+    "acc := mut [mut int] []; i := mut 0; while *i < 3 { i += 1; acc += [mut *i] }; q := *acc; q[0] += 10; (*q[0], *q[1], *q[2])",
+    "f := (n: int) -> int { r := mut 0; k := mut 0; loop { k += 1; if *k > n { break }; w := mut *k; w *= 2; r += *w }; return *r }; (f(2), f(3))",
     "i := mut 0; s := mut 0; while *i < 6 { i += 1; s += *i }; *s",
     "it := [3, 1, 2]~; f := (x: int) -> int { return x * 2 }; (it @ f) $]",
     "c := mut [int] []; for e in [1, 2, 3]~ { c += [e * e] }; *c",
@@ -1036,6 +1040,7 @@ pub fn gen_sequential(seed: u64, boot_seed: u64, run: u64) -> Scenario {
 }
 
 pub fn run_scenario(sc: &Scenario) -> RunReport {
+    crate::run::note_current(|| sc.to_json());
     if sc.threads.len() <= 1 && sc.mode == "cells" {
         run_sequential(sc)
     } else {
